@@ -308,6 +308,10 @@ def evidence(ctx, spec, stages, obligations, discharged, axioms_used, nviol, wal
         'proof_status': 'all obligations discharged' if ctx.coq_ok else (ctx.gen_error or ctx.coq_error),
         'known_findings': [k['key'] for k in known],
     }
+    if not ctx.coq_ok or not obligations:
+        # nothing was discharged in this run: do not present proof-level counts
+        cov['obligations_listed'] = len(spec.get('theorems', []))
+        del cov['obligations'], cov['discharged']
     if spec.get('exhaustive') and ctx.deep: cov['exhaustive'] = True
     if not cov['states']:
         del cov['states'], cov['transitions']
